@@ -335,7 +335,7 @@ func c03Finale(rc *RunCtx, user *Actor) {
 	for _, qid := range mb.MQOrder {
 		mq := mb.MQ[qid]
 		inv := W.LN.Invoices[mq.Hash]
-		if inv == nil || (inv.PaidCount == 0 && mq.Internal == 0) {
+		if inv == nil || (inv.PaidCount == 0 && W.Book.internalSettlements(mb, mq) == 0) {
 			continue
 		}
 		q := &MintQuote{ID: mq.ID, Request: mq.Request, Hash: mq.Hash, Amount: mq.Amount}
